@@ -42,3 +42,14 @@ claim('C05', 'exploration',
       'state and the probes are judged there.',
       'runtime monitoring: unchanged-on-failure and transaction-state monitors over systematic and random failing calls',
       'DESIGN.md section 4, C05')
+
+claim('C06', 'exploration',
+      'Bounded-exhaustive iterator scripts: 11 loop shapes (1-3 packets x 1-3 items, the scalar loop, partially filled '
+      'packets) x every script over {next fresh / next into a caller packet with extra items / next NULL sink / update '
+      'subset / update with foreign item / update empty / remove} up to length 6 (thorough: the whole space; quick: all '
+      'scripts up to length 3 plus a seeded sample of the length-5 space) x {close, abort}, each on a fresh CIF, judged '
+      'by a state-machine model with unique cell values; plus empty-loop, destroyed-loop, remove-all and two-loop cases.',
+      'Packet order is unspecified: a NULL-sink next is assumed to consume packets in storage order.  After '
+      'CIF_FINISHED update/remove may be refused or act on the last delivered packet.',
+      'runtime monitoring: bounded-exhaustive script enumeration against a state-machine oracle under ASan/UBSan',
+      'DESIGN.md section 4, C06')
